@@ -605,5 +605,3 @@ def r2f_claimed(prog, run, par):
                               'those are serialized in the public part as well' % (f.display()[:50], tests[-1][:70]))
             else:
                 run.ok(rid, f.loc(i), 'recognised element consumed', nontrivial=False)
-    if n_arms < 10:
-        raise AnalysisBroken('C17.R2f: only %d returns inside recognised-element arms of the sensitive region found' % n_arms)
